@@ -51,6 +51,12 @@ fn exec<const B: usize, const L: usize>(m: &mut Mon, op: &str, a: &[Arg]) {
             if let Some(v) = m.must(|| &x + &y) {
                 m.eq_uint("op+.rr", &v, &w);
             }
+            if a[0].u() == a[1].u() {
+                // both operands are the very same object
+                if let Some(v) = m.must(|| &x + &x) {
+                    m.eq_uint("op+.rr.alias", &v, &w);
+                }
+            }
             if let Some(v) = m.must(|| {
                 let mut z = x;
                 z += y;
@@ -111,6 +117,11 @@ fn exec<const B: usize, const L: usize>(m: &mut Mon, op: &str, a: &[Arg]) {
             }
             if let Some(v) = m.must(|| &x - &y) {
                 m.eq_uint("op-.rr", &v, &w);
+            }
+            if a[0].u() == a[1].u() {
+                if let Some(v) = m.must(|| &x - &x) {
+                    m.eq_uint("op-.rr.alias", &v, &w);
+                }
             }
             if let Some(v) = m.must(|| {
                 let mut z = x;
@@ -174,6 +185,15 @@ fn exec<const B: usize, const L: usize>(m: &mut Mon, op: &str, a: &[Arg]) {
             if let Some(v) = m.must(|| xs.iter().sum::<Uint<B, L>>()) {
                 m.eq_uint("sum.refs", &v, &w);
             }
+            // the same terms through iterators of other kinds (no / partial size_hint, adaptors, by_ref)
+            macro_rules! each {
+                ($label:literal, $e:expr) => {
+                    if let Some(v) = m.must(|| $e) {
+                        m.eq_uint(concat!("sum.", $label), &v, &w);
+                    }
+                };
+            }
+            vmon::iter_kinds!(xs, Uint<B, L>, sum; each);
         }
         _ => panic!("harness: unknown op {op}"),
     }
